@@ -251,6 +251,14 @@ def dynamic_part(ctx):
             S.call(f"SSPOC[{bk}].update_sensors(n, xy)", lambda: ((Xc.copy(), yc.copy()), {}), lambda x, y: mc.update_sensors(n_sensors=2, xy=(x, y), quiet=True))
             S.call(f"SSPOC[{bk}].update_sensors(thr)", lambda: ((), {}), lambda: mc.update_sensors(threshold=0.0, quiet=True))
             S.call(f"SSPOC[{bk}].update_n_basis_modes", lambda: ((Xc.copy(), yc.copy()), {}), lambda x, y: mc.update_n_basis_modes(2, (x, y), quiet=True))
+        # a user-supplied mode matrix (Custom basis, fitted beforehand) shared by a classification model: the caller's U – an ordinary
+        # C-ordered array, all its columns in use, so its transpose is Fortran-ordered – and the stored basis must survive sensor selection
+        for ncls_ in (2, 3):
+            Xk, yk = models.gen_classification(rng, n_classes=ncls_, n_features=nf)
+            Uc = np.ascontiguousarray(np.linalg.qr(np.array([[rng.randint(-5, 5) for _ in range(3)] for _ in range(nf)], dtype=float) + np.eye(nf, 3))[0])
+            bc = Custom(Uc, n_basis_modes=3).fit()
+            S.call(f"SSPOC[custom prefit, {ncls_} classes].fit(x, y)", lambda: ((Xk.copy(), yk.copy()), {}),
+                   lambda x, y: SSPOC(basis=bc, n_sensors=2).fit(x, y, prefit_basis=True, quiet=True), lambda: (Uc, bc.basis_matrix_))
         # ---- constraint helpers and metrics
         side = rng.randint(2, 4)
         rk = np.array(rng.sample(range(side * side), side * side))
